@@ -157,7 +157,8 @@ def resolve_unwindset(q, wd):
             out += ["%s:%s" % (l[0], n) for l in hit]
         elif ".*:" in e:
             fn, n = e.split(".*:")
-            hit = [l for l in loops if l[3] == fn or l[3].endswith("_" + fn) and l[3].startswith("__CPROVER_file_local")]
+            hit = [l for l in loops if l[3] == fn or re.match(re.escape(fn) + r"_\d+$", l[3])
+                   or l[3].endswith("_" + fn) and l[3].startswith("__CPROVER_file_local")]
             out += ["%s:%s" % (l[0], n) for l in hit]
         else:
             out.append(e)
